@@ -31,14 +31,23 @@ def _names_stored(node: ast.AST) -> Set[str]:
     return out
 
 
+def _read_call(v: ast.AST) -> Optional[ast.Call]:
+    if isinstance(v, ast.Call) and isinstance(v.func, ast.Attribute) and v.func.attr == "read" and len(v.args) == 1:
+        return v
+    if isinstance(v, ast.BoolOp) and isinstance(v.op, ast.Or):
+        # `already_read or stream.read(N)`: the result can only be short/empty through the read
+        return _read_call(v.values[-1])
+    return None
+
+
 def _read_sites(fn: ast.AST) -> List[Tuple[ast.Assign, str, ast.AST]]:
-    """assignments `X = <stream>.read(N)` -> (stmt, X, N-expression)"""
+    """assignments `X = <stream>.read(N)` (or `X = given or <stream>.read(N)`) -> (stmt, X, N-expression)"""
     out = []
     for st in ast.walk(fn):
-        if isinstance(st, ast.Assign) and len(st.targets) == 1 and isinstance(st.targets[0], ast.Name) \
-                and isinstance(st.value, ast.Call) and isinstance(st.value.func, ast.Attribute) \
-                and st.value.func.attr == "read" and len(st.value.args) == 1:
-            out.append((st, st.targets[0].id, st.value.args[0]))
+        if isinstance(st, ast.Assign) and len(st.targets) == 1 and isinstance(st.targets[0], ast.Name):
+            c = _read_call(st.value)
+            if c is not None:
+                out.append((st, st.targets[0].id, c.args[0]))
     return out
 
 
@@ -289,7 +298,8 @@ def _rejects_zero(t: Sym) -> bool:
 def rule_M3(ctx) -> None:
     mod = ctx.repo.mod(M_INIT)
     lf = mod.func("load_fields")
-    res = [r for r in read_guards(mod, lf)]
+    # single-byte reads are tag / varint bytes: their end-of-input discipline is decided by N3 and M3b
+    res = [r for r in read_guards(mod, lf) if r["n"] != "1"]
     ctx.floor("M3", "stream reads in load_fields", len(res), 3)
     for r in res:
         name = f"load_fields:read({r['n']})"
@@ -354,7 +364,24 @@ def rule_M3b(ctx) -> None:
                         else:
                             clean.add(ast.unparse(h.type))
     if not clean:
-        ctx.inconclusive("M3b", "load_fields:clean-end", "no exception-based end-of-input signal recognised", mod.loc(lf))
+        # no exception-based signal: the generator may only end under an emptiness test of the iteration's first read
+        paths = Interp(mod, fresh_calls=["read", "load_varint", "decode_varint"]).run(lf)
+        ctx.count(len(paths))
+        ends = [p for p in paths if p.outcome in ("return", "fall") and not any(e.kind == "yield" for e in p.events)]
+        if not ends:
+            ctx.inconclusive("M3b", "load_fields:clean-end", "no path on which the reader ends normally", mod.loc(lf))
+            return
+        bad = None
+        for p in ends:
+            cons = [e for e in p.events if e.kind == "call" and e.depth == 0 and (dotted(e.data[1]).endswith(".read") or dotted(e.data[1]) in ("load_varint", "decode_varint"))]
+            if len(cons) != 1 or not dotted(cons[0].data[1]).endswith(".read") or p.valuation.get(cons[0].data) is not False:
+                bad = p
+        if bad is None:
+            ctx.proved("M3b", "load_fields:clean-end", mod.loc(lf), "the reader ends only when the first byte of a tag cannot be read")
+        else:
+            ctx.refuted("M3b", "load_fields:clean-end", "ends-after-consuming", mod.loc(lf),
+                        "load_fields can end normally after having consumed input in the current iteration: " + val_text(bad.valuation),
+                        "M().parse(b'\\xa0')")
         return
     paths = Interp(mod, fresh_calls=["read"], unroll=2).run(lv)
     ctx.count(len(paths))
@@ -447,6 +474,19 @@ def rule_M5(ctx) -> None:
         if t[0] == "op" and t[1] == "<" and t[2][0] == "n" and t[3][0] == "call" and t[3][1] == N("len"):
             var = t[2][1]
         name = f"{q}:while {ast.unparse(lp.test)}"
+        if var is None and q == "Message.load":
+            # the field loop: every iteration takes a field from the reader (>= 1 byte, M5 on load_fields) or leaves
+            g = CFG(fn, implicit_exc=False)
+            adv = {nd.id for nd, _ in _advance_sites(g, fn)}
+            heads = [nd for nd in g.nodes_for(lp) if nd.kind == "loop"]
+            okp = bool(adv) and bool(heads)
+            for h in heads:
+                starts = [m for m, lab in g.succ[h.id] if lab == "iter"]
+                if h.id in g.reachable(starts, avoid=adv, labels=normal_edge):
+                    okp = False
+            if okp:
+                ctx.proved("M5", name, mod.loc(lp), "every iteration takes a field from the reader")
+                continue
         if var is None:
             if isinstance(lp.test, ast.Constant) and lp.test.value:
                 # while True: must contain a consuming call on every iteration path (handled for load_fields below)
